@@ -170,7 +170,7 @@ def run(rep, repo, tier):
     try:
         wf_, fw_, _ = c13.find_writer(repo)
         rf_ = c13.find_reader(repo)
-        wt_ = T_.WriterTable(wf_, resolver=c13.helper_resolver(repo, repo.rel('generator')))
+        wt_ = T_.WriterTable(wf_, resolver=c13.helper_resolver(repo, repo.rel('generator')), ties_are_arrays=c13.ties_are_arrays(repo))
         decs_ = sorted({v[1] for v in wt_.table.values() if v[0] != 'BAD'})
         rt_ = T_.ReaderTable(rf_, decs_, resolver=c13.helper_resolver(repo, repo.rel('solver')))
         viol_, stats_ = T_.explore(wt_.table, wt_.init, rt_)
